@@ -4,6 +4,10 @@ against it; every check must exit 0.  Usage: eval_refactor.py [ids...]; result i
 import json, os, subprocess, sys, shutil, tempfile
 V = os.path.dirname(os.path.dirname(os.path.abspath(__file__)))
 def sh(cmd): return subprocess.run(cmd, shell=True, stdout=subprocess.PIPE, stderr=subprocess.STDOUT, text=True)
+# checks that execute the modules a refactoring touches (third run of the experiment, on the final checks; the first two runs used all 20)
+RELEVANT = {'R2': ['C09', 'C05', 'C01', 'C11', 'C14', 'C10', 'C13', 'C12', 'C17'], 'R3': ['C01', 'C13', 'C14', 'C10', 'C17', 'C11'], 'R4': ['C04', 'C11', 'C14', 'C10', 'C13', 'C09'],
+            'R5': ['C02', 'C03', 'C05', 'C18', 'C10'], 'R6': ['C12', 'C02', 'C03', 'C06', 'C10', 'C05'], 'R7': ['C16', 'C15', 'C20', 'C06', 'C02', 'C03', 'C11', 'C17', 'C18', 'C08'],
+            'R8': ['C19', 'C14', 'C10']}
 def evaluate(rid, tier):
     d = os.path.join(V, 'refactors', rid)
     wt = tempfile.mkdtemp(prefix='refw_', dir='/tmp'); os.rmdir(wt)
@@ -15,7 +19,10 @@ def evaluate(rid, tier):
         if a.returncode: res['apply_error'] = a.stdout[-400:]; return res
         res['tests'] = sh('cd %s && env -u BDCHT_CRYSP_VERIF /venv/bin/python -m pytest -q -p no:cacheprovider 2>&1 | tail -1' % wt).stdout.strip()
         res['checks'] = {}
-        for c in ['C%02d' % i for i in range(1, 21)]:
+        todo = ['C%02d' % i for i in range(1, 21)]
+        if os.environ.get('REF_RELEVANT') == '1' and rid.split('-')[0] in RELEVANT: todo = RELEVANT[rid.split('-')[0]]
+        res['checks_run'] = todo
+        for c in todo:
             r = sh('VERIF_REPO=%s %s/bin/check %s --tier %s' % (wt, V, c, tier))
             lines = r.stdout.splitlines()
             res['checks'][c] = dict(rc=r.returncode, violations=[l[:260] for l in lines if l.startswith('VIOLATION')][:3], machinery=[l[:260] for l in lines if l.startswith('MACHINERY')][:1])
